@@ -219,10 +219,14 @@ def unknown_ids(repo: Repo, rep, P: str):
         rep.violation(f"{P}.R1", construct, verdict[1:], "handlers must be looked up as process_<stripped id> with a None default", f"{rel}:{fn.lineno}")
     else:
         rep.inconclusive(f"{P}.R1", construct, verdict, "handler look-up not recognised", f"{rel}:{fn.lineno}")
-    if "method(data)" in src:
-        rep.ok(f"{P}.R1", construct, "method(data)", nontrivial=False)
+    dvar = norm(loop.ast.target.elts[1]) if isinstance(loop.ast.target, ast.Tuple) and len(loop.ast.target.elts) == 2 else None
+    hcalls = [c for n in g.nodes if n.kind == "stmt" and n.ast is not None for c in ast.walk(n.ast)
+              if isinstance(c, ast.Call) and isinstance(c.func, ast.Name) and c.func.id == hv]
+    if hv is not None and dvar is not None and hcalls and all(len(c.args) == 1 and not c.keywords and norm(c.args[0]) == dvar for c in hcalls):
+        rep.ok(f"{P}.R1", construct, f"{hv}({dvar})", nontrivial=False)
     else:
-        rep.violation(f"{P}.R1", construct, "method(data)", "the handler is not called with the chunk payload", f"{rel}:{fn.lineno}")
+        rep.violation(f"{P}.R1", construct, "; ".join(norm(c) for c in hcalls) or "handler(data)", "the handler is not called with the chunk payload",
+                      f"{rel}:{fn.lineno}")
     # ReaderFinished ends the section silently; end of stream calls process_end_of_file
     handlers = [n for n in ast.walk(fn) if isinstance(n, ast.ExceptHandler)]
     if any(h.type is not None and norm(h.type) == "ReaderFinished" and all(isinstance(s, ast.Pass) for s in h.body) for h in handlers) \
@@ -252,11 +256,75 @@ def unknown_ids(repo: Repo, rep, P: str):
     # iff.chunks: reads every chunk, stops only at EOF
     cf = repo.func("rv.lib.iff", "chunks")
     s = norm(cf)
-    if "Chunk(f, align=False, bigendian=False)" in s and "yield (c.getname(), c.read())" in s and "except EOFError:" in s:
+    verdict = _chunk_iterator(repo, cf)
+    if verdict == "ok":
         rep.ok(f"{P}.R1", "src/python/rv/lib/iff.py:chunks", "Chunk(f, align=False, bigendian=False); yield name, read()", "unaligned little-endian chunks until EOF")
+    elif verdict.startswith("?"):
+        rep.inconclusive(f"{P}.R1", "src/python/rv/lib/iff.py:chunks", s[:200], f"chunk iterator not recognised: {verdict[1:]}", "src/python/rv/lib/iff.py")
     else:
-        rep.violation(f"{P}.R1", "src/python/rv/lib/iff.py:chunks", s[:200], "the chunk iterator must read unaligned little-endian chunks until EOF",
+        rep.violation(f"{P}.R1", "src/python/rv/lib/iff.py:chunks", verdict, "the chunk iterator must read unaligned little-endian chunks until EOF",
                       "src/python/rv/lib/iff.py")
+
+
+def _chunk_iterator(repo: Repo, cf: ast.FunctionDef) -> str:
+    """'ok' / '?why' / what is wrong.  The iterator opens one unaligned little-endian Chunk per round of an endless loop, yields
+    (name, payload), skips to the next chunk, and leaves the loop only through EOFError."""
+    fparam = cf.args.args[0].arg if cf.args.args else "f"
+    loops = [n for n in walk_no_nested(cf) if isinstance(n, (ast.While, ast.For))]
+    if len(loops) != 1 or not isinstance(loops[0], ast.While):
+        return "?one `while` loop expected"
+    lp = loops[0]
+    try:
+        endless = bool(repo.fold(lp.test)) is True
+    except NotConst:
+        endless = False
+    if not endless:
+        return f"the loop runs while {norm(lp.test)}: chunks after that point are not delivered"
+    opens = [n for n in ast.walk(lp) if isinstance(n, ast.Assign) and isinstance(n.value, ast.Call) and norm(n.value.func).split(".")[-1] == "Chunk"
+             and len(n.targets) == 1 and isinstance(n.targets[0], ast.Name)]
+    if len(opens) != 1:
+        return "?Chunk(...) construction"
+    call = opens[0].value
+    c = opens[0].targets[0].id
+    opts = {"align": True, "bigendian": True}
+    names = ["file", "align", "bigendian", "inclheader"]
+    try:
+        for i, a in enumerate(call.args):
+            if names[i] in opts:
+                opts[names[i]] = repo.fold(a)
+        for k in call.keywords:
+            if k.arg in opts:
+                opts[k.arg] = repo.fold(k.value)
+    except (NotConst, IndexError):
+        return "?Chunk options not constant"
+    if not call.args or norm(call.args[0]) != fparam:
+        return f"?Chunk is opened on {norm(call.args[0]) if call.args else 'nothing'}"
+    if opts["align"] or opts["bigendian"]:
+        return f"{norm(call)}: SunVox chunks are unaligned and little-endian"
+    ys = [n for n in ast.walk(lp) if isinstance(n, ast.Yield)]
+    if len(ys) != 1 or not isinstance(ys[0].value, ast.Tuple) or len(ys[0].value.elts) != 2:
+        return "?yield shape"
+    if [norm(e) for e in ys[0].value.elts] != [f"{c}.getname()", f"{c}.read()"]:
+        return f"{norm(ys[0])} is yielded instead of ({c}.getname(), {c}.read())"
+    skips = [n for n in ast.walk(lp) if isinstance(n, ast.Call) and norm(n.func) == f"{c}.skip"]
+    if not skips or inline.pos(skips[0]) < inline.pos(ys[0]):
+        return f"?{c}.skip() after the yield"
+    # exits: only through an EOFError handler
+    handlers = [h for h in ast.walk(cf) if isinstance(h, ast.ExceptHandler)]
+    eof = [h for h in handlers if h.type is not None and norm(h.type) == "EOFError"]
+    if not eof or len(handlers) != len(eof):
+        return "?exception handlers " + ", ".join(norm(h.type) if h.type else "bare" for h in handlers)
+    in_handlers = {id(x) for h in eof for x in ast.walk(h)}
+    for n in ast.walk(cf):
+        if isinstance(n, (ast.Break, ast.Return)) and id(n) not in in_handlers:
+            return f"`{norm(n)}` leaves the loop before the end of the stream"
+        if isinstance(n, ast.Continue):
+            return "?continue"
+    # the try must enclose the chunk construction (EOFError comes from Chunk(...))
+    tries = [t for t in ast.walk(cf) if isinstance(t, ast.Try) and any(x is opens[0] for x in ast.walk(t) if not isinstance(x, ast.ExceptHandler))]
+    if not tries:
+        return "?the EOFError handler does not cover Chunk(...)"
+    return "ok"
 
 
 def _handler_lookup(fn: ast.FunctionDef) -> Optional[str]:
@@ -424,8 +492,37 @@ def termination(repo: Repo, rep, P: str):
                 hdr = 4 + struct.calcsize(repo.fold(n.args[0]))
             except (NotConst, struct.error):
                 pass
-    if f"new_pos = self.f.tell() - len(data) - {hdr}" in s and "self.f.seek(new_pos)" in s:
+    from .. import alg
+    from ..packed import single_defs, resolve_names
+    rwn = inline.normalize(repo, rd, rw)
+    dparam = [a.arg for a in rwn.args.args if a.arg != "self"][0]
+    seeks = [c for c in ast.walk(rwn) if isinstance(c, ast.Call) and norm(c.func) == "self.f.seek" and c.args]
+    rdefs = single_defs(rwn)
+
+    def rleaf(e):
+        if norm(e) == "self.f.tell()":
+            return alg.Poly.sym("T")
+        if norm(e) == f"len({dparam})":
+            return alg.Poly.sym("L")
+        if isinstance(e, (ast.Name, ast.Attribute)):
+            try:
+                c = repo.fold(e, ci=rd)
+            except (NotConst, AnchorMissing):
+                return None
+            if isinstance(c, int) and not isinstance(c, bool):
+                return alg.Poly.const(c)
+        return None
+    verdict = None
+    if len(seeks) == 1 and len(seeks[0].args) == 1:
+        try:
+            target = alg.to_poly(resolve_names(seeks[0].args[0], rdefs), rleaf)
+            verdict = target == alg.Poly.sym("T") - alg.Poly.sym("L") - hdr
+        except alg.NotAlgebraic:
+            verdict = None
+    if verdict:
         rep.ok(f"{P}.R3", f"{rd.file.rel}:Reader.rewind", f"tell() − len(data) − {hdr}", f"= payload + the {hdr}-byte header write_chunk emits")
+    elif verdict is None:
+        rep.inconclusive(f"{P}.R3", f"{rd.file.rel}:Reader.rewind", s[:160], "seek target not recognised", f"{rd.file.rel}:{rw.lineno}")
     else:
         rep.violation(f"{P}.R3", f"{rd.file.rel}:Reader.rewind", s[:160],
                       f"rewind must move back by len(data) + {hdr} (id + length field) so the section reader re-reads the opening chunk",
